@@ -482,6 +482,9 @@ func (fx *fnExec) execBuiltin(dst *ssa.Call, b *ssa.Builtin, c *ssa.CallCommon, 
 		fx.assume(Term{fmt.Sprintf("(forall ((k$q Int)) (! (=> (and (<= 0 k$q) (< k$q %s)) (= (sat %s k$q) (select (select %s %s) %s))) :pattern ((sat %s k$q))))",
 			n.S, r.S, h.S, sl.Arr.S, fx.eIdx(sl.Off, kq).S, r.S), SBool})
 		fx.setResult(dst, Sc{r, types.Typ[types.String]})
+	case "StringData":
+		// unsafe.StringData(s): an opaque pointer (what is built from it with unsafe.Slice is unknown memory)
+		fx.setResult(dst, Sc{fx.freshConst("strdata", SInt), nil})
 	case "Slice":
 		// unsafe.Slice(ptr, n): n elements of memory we know nothing about (it may alias anything)
 		st, ok := c.Signature().Results().At(0).Type().Underlying().(*types.Slice)
